@@ -57,6 +57,7 @@ type frame struct {
 	panic            any
 	phitemps         []value // temporaries for parallel phi assignment
 	backEdges        map[*ssa.BasicBlock]int
+	phiOverride      map[*ssa.Phi]value
 }
 
 func (fr *frame) get(key ssa.Value) value {
@@ -277,20 +278,28 @@ func visitInstr(fr *frame, instr ssa.Instruction) continuation {
 		store(mustDeref(instr.Addr.Type()), addr, fr.get(instr.Val))
 
 	case *ssa.If:
-		succ := 1
 		switch c := fr.get(instr.Cond).(type) {
 		case bool:
 			if c {
-				succ = 0
+				fr.jump(fr.block.Succs[0])
+			} else {
+				fr.jump(fr.block.Succs[1])
 			}
 		case SymBool:
-			if fr.decide(c.T, "if") {
-				succ = 0
+			cond, tBlk, fBlk, tPred, fPred, merged := fr.tryMerge(instr, c.T)
+			if merged {
+				return kJump
+			}
+			if fr.decide(cond, "if") {
+				fr.block = tPred
+				fr.jump(tBlk)
+			} else {
+				fr.block = fPred
+				fr.jump(fBlk)
 			}
 		default:
 			panic(engineError{fmt.Sprintf("If on %T", c)})
 		}
-		fr.jump(fr.block.Succs[succ])
 		return kJump
 
 	case *ssa.Jump:
@@ -774,8 +783,13 @@ func executePhis(fr *frame) []ssa.Instruction {
 		fr.phitemps = fr.phitemps[:0]
 		for _, phi := range phis {
 			phi := phi.(*ssa.Phi)
+			if v, ok := fr.phiOverride[phi]; ok {
+				fr.phitemps = append(fr.phitemps, v)
+				continue
+			}
 			fr.phitemps = append(fr.phitemps, fr.get(phi.Edges[predIndex]))
 		}
+		fr.phiOverride = nil
 		for i, phi := range phis {
 			fr.env[phi.(*ssa.Phi)] = fr.phitemps[i]
 		}
